@@ -77,6 +77,11 @@ impl Searcher {
         let (tx1, rx1) = mpsc::channel();
         let (tx2, rx2) = mpsc::channel();
         let tx3 = tx2.clone();
+        #[cfg(weechess_verif)]
+        let verif_search = verif::next_search_id();
+
+        #[cfg(weechess_verif)]
+        verif::thread_event("A_Spawn", verif_search);
         let control_handle = thread::spawn(move || {
             let sink = tx1;
             let controller = rx2;
@@ -92,13 +97,24 @@ impl Searcher {
                     previous_artifact,
                     None,
                     &mut |event| {
+                        #[cfg(weechess_verif)]
+                        if let StatusEvent::BestMove { .. } = &event {
+                            verif::thread_event("S_Report", verif_search);
+                        }
+
                         // This can error if the receiver drops their end. That's ok
                         _ = sink.send(event);
                     },
                 );
 
+                #[cfg(weechess_verif)]
+                verif::thread_event("S_SendStop", verif_search);
+
                 // We actually finished search, send a stop event to the controller
                 tx3.send(ControlEvent::Stop).unwrap();
+
+                #[cfg(weechess_verif)]
+                verif::thread_event("S_Exit", verif_search);
 
                 // Finally, return the new artifact so it can be passed into the next search iteration
                 new_artifact
@@ -110,6 +126,16 @@ impl Searcher {
                     Err(mpsc::RecvError) => break,
                 }
             }
+
+            #[cfg(weechess_verif)]
+            verif::thread_event("C_Recv", verif_search);
+
+            #[cfg(weechess_verif)]
+            verif::thread_event("C_Cancel", verif_search);
+
+            // (logged when it goes out of scope, that is after the join below has returned)
+            #[cfg(weechess_verif)]
+            let _verif_joined = verif::ThreadEventOnDrop("C_Join", verif_search);
 
             signal_token.cancel();
             search_handle.join().unwrap()
